@@ -44,20 +44,4 @@ theorem parse_valid (bs : Bits) (hbs : bs.length < 2 ^ 32 - 1) (p : Parsed)
     StreamValid p.plain p.blocks ∧ p.eofPadding < 256 :=
   parse_valid_of_counts bs p h fun b hb => Nat.lt_trans (parse_counts bs p h b hb) hbs
 
-variable {H : Type}
-
-/-- end to end, for ANY predictor: if analysing an accepted stream (shorter than 512 MiB) yields
-    corrections, then reconstruction from those corrections followed by the block writer returns
-    exactly the bytes the parser consumed -/
-theorem recompress_analyze (P : Pred H) (d : List UInt8) (hd : d.length < 2 ^ 29) (p : Parsed)
-    (hp : parse d = .ok p)
-    (ops : List Op) (he : encStream P p.plain p.blocks p.eofPadding = .ok ops) :
-    ∃ blocks pad, decStream P p.plain ops = .ok (blocks, pad, []) ∧
-      writeStream blocks pad = .ok (d.take (p.consumed d)) := by
-  have hl := length_bytesToBits d
-  obtain ⟨hv, hpad⟩ := parse_valid (bytesToBits d) (by omega) p hp
-  have hdec := decStream_encStream P p.plain p.blocks p.eofPadding hv hpad ops he []
-  rw [List.append_nil] at hdec
-  exact ⟨p.blocks, p.eofPadding, hdec, (write_parse d p hp).1⟩
-
 end Preflate.Proofs
